@@ -3,10 +3,10 @@
 (* TLC as evaluator for property C17: operation histories that were        *)
 (* generated outside the small model's constants (deeper nesting, more and *)
 (* longer paths, other attribute values) are read from a JSON file; the    *)
-(* reference operators of SiteRouting (Route / Listing / Filter, through    *)
+(* reference operators of SiteRouting (Route / Listing / Filter, through   *)
 (* Apply) are folded over each history and the expected outcome of every   *)
-(* operation is written out.  The Python driver executes the same history on   *)
-(* real aiocoap Site objects and compares.                                 *)
+(* operation is written out.  The Python driver executes the same history  *)
+(* on real aiocoap Site objects and compares.                              *)
 (*                                                                         *)
 (* Input (environment variable C17_HIST): array of                         *)
 (*   { "W":   { "root": id, "sites": [id..], "leaves": [id..],             *)
@@ -28,17 +28,18 @@ WorldOf(h) == [root   |-> h.W.root,
                leaves |-> ToSet(h.W.leaves),
                attrs  |-> h.W.attrs]
 
-RECURSIVE Run(_, _, _, _, _)
-Run(W, s0, pv, ops, i) ==
-  IF i > Len(ops) THEN <<>>
-  ELSE IF ~InDomain(W, s0, ops[i])
-       THEN <<[kind |-> "domain"]>> \o Run(W, s0, pv, ops, i + 1)
-       ELSE LET r == Apply(W, s0, pv, ops[i])
-            IN <<Show(r.exp)>> \o Run(W, r.st, r.prev, ops, i + 1)
+StepOf(W, acc, o) ==
+  IF ~InDomain(W, acc.st, o)
+  THEN [acc EXCEPT !.out = Append(@, [kind |-> "domain"])]
+  ELSE LET r == Apply(W, acc.st, acc.prev, o)
+       IN [st |-> r.st, prev |-> r.prev, out |-> Append(acc.out, Show(r.exp))]
 
-Expected(h) == LET W == WorldOf(h) IN Run(W, InitSt(W), InitSt(W), h.ops, 1)
+Expected(h) ==
+  LET W == WorldOf(h)
+  IN SX!FoldLeft(LAMBDA acc, o : StepOf(W, acc, o),
+                 [st |-> InitSt(W), prev |-> InitSt(W), out |-> <<>>], h.ops).out
 
-(* all expectations go to the file named by C17_OUT (sets become arrays);    *)
+(* All expectations go to the file named by C17_OUT (sets become arrays);   *)
 (* the printed line lets the driver check that every history was evaluated. *)
 ASSUME /\ JsonSerialize(IOEnv.C17_OUT, [n \in 1..Len(Hist) |-> Expected(Hist[n])])
        /\ PrintT(<<"C17EVAL", Len(Hist)>>)
